@@ -31,6 +31,10 @@ def check(ctx):
 # --------------------------------------------------------------------------------------------- S1, S2
 def accessor(ctx, qn, col):
     fn = ctx.fn(qn)
+    # the caller's view of the signature: (self, <time>, <asset>) whatever the parameters are called
+    pp_ = [p_ for p_ in fn.pos_params if p_ not in ('self', 'cls')]
+    DT = V(pp_[0]) if len(pp_) >= 1 else DT
+    FRAME = ('sub', A('self', 'asset_bid_ask_frames'), V(pp_[1]) if len(pp_) >= 2 else V('asset'))
     ps = summarise(ctx, qn, policy=default_policy)
     valued = 0
     from ..lib import memo_tables
@@ -80,7 +84,7 @@ def accessor(ctx, qn, col):
         ok = meth is not None and meth[0] == 'str' and meth[1] in PAD
         ctx.require(ok, 'C06.S1', '%s looks up the last row at or before dt (method pad/ffill)' % qn, fn.site(),
                     'method=%s' % (fmt(meth) if meth is not None else 'None (exact match only)'), key='C06.S1|%s|method' % qn)
-        ok = g[2][0] == ('attr', FRAME, 'index') and len(g[2]) >= 2 and g[2][1] in (('list', (V('dt'),)), ('tuple', (V('dt'),)))
+        ok = g[2][0] == ('attr', FRAME, 'index') and len(g[2]) >= 2 and g[2][1] in (('list', (DT,)), ('tuple', (DT,)))
         ctx.require(ok, 'C06.S1', '%s queries the timestamp index of the asset\'s bid/ask frame with its own dt' % qn, fn.site(), fmt(g)[:200],
                     key='C06.S1|%s|target' % qn)
         ctx.require(not set(kws) - {'method'}, 'C06.S1', '%s: no tolerance/limit on the lookup' % qn, fn.site(), sorted(kws), key='C06.S1|%s|kwargs' % qn)
@@ -101,15 +105,17 @@ def accessor(ctx, qn, col):
         # S2: the -1 sentinel is excluded on this path
         i0 = ('sub', g, num(0))
         guarded = False
+        from ..lib import strip_ndarray
         for c, val, _ in p.conds:
             if c[0] != 'cmp':
                 continue
-            s = (c[1], c[2], c[3], val)
+            # the same numbers, whatever container they were copied into (row.tolist()[0] is row[0])
+            s = (c[1], strip_ndarray(c[2]), strip_ndarray(c[3]), val)
             for target in (i0, g):
                 if s in ((('<='), ZERO, target, True), ('<', target, ZERO, False), ('<', num(-1), target, True), ('<=', target, num(-1), False),
                          ('==', num(-1), target, False), ('==', target, num(-1), False)):
                     guarded = True
-        other_guard = [c for c, val, _ in p.conds if c[0] == 'cmp' and any(s_ == V('dt') for s_ in T.subterms(c)) and
+        other_guard = [c for c, val, _ in p.conds if c[0] == 'cmp' and any(s_ == DT for s_ in T.subterms(c)) and
                        any(s_[0] == 'attr' and s_[1] == V('self') for s_ in T.subterms(c))]
         if not guarded and other_guard:
             # "before the first bar" is excluded by comparing dt with construction-time data instead of testing the sentinel: whether that data is the
